@@ -352,6 +352,81 @@ fn strategy() -> BoxedStrategy<Case> {
     prop_oneof![5 => matrix, 1 => int_matrix, 4 => sets].boxed()
 }
 
+const NT_BIG: u32 = 700;
+
+thread_local! {
+    static FLAT_BIG: Ontology = {
+        let mut f = Facts::default();
+        f.terms.push(TermFact { id: 1, name: "root".into(), obsolete: false, replacement: None });
+        for i in 2..=NT_BIG {
+            f.terms.push(TermFact { id: i, name: format!("t{i}"), obsolete: i % 9 == 0, replacement: None });
+            f.edges.push((i, 1));
+        }
+        crate::build::via_binary(&f, 3).expect("flat ontology")
+    };
+}
+
+/// asymmetric pseudo-random similarity in [-1, 3), a function of the two ids
+#[derive(Clone)]
+struct HashSim(u64);
+impl HashSim {
+    fn value(&self, a: u32, b: u32) -> f32 {
+        let mut h = Fnv::new();
+        h.u64(self.0);
+        h.u64(u64::from(a));
+        h.u64(u64::from(b) << 20);
+        ((h.finish() >> 44) as f32) / 262_144.0 - 1.0
+    }
+}
+impl Similarity for HashSim {
+    fn calculate(&self, a: &HpoTerm, b: &HpoTerm) -> f32 {
+        self.value(a.id().as_u32(), b.id().as_u32())
+    }
+}
+
+/// Sets of more than 128 / 255 members (sums over long vectors of maxima): `na` x `nb` terms of a flat
+/// 700-term ontology, an asymmetric similarity that is a function of the ids.
+pub fn check_big_sets(na: u32, nb: u32, seed: u64, stats: &mut Stats) -> CheckResult {
+    ensure!(na < NT_BIG && nb < NT_BIG, "harness/bad-case", "set too large for the fixture");
+    let ia: Vec<u32> = (0..na).map(|i| 2 + (i * 3 + (seed % 3) as u32) % (NT_BIG - 1)).collect::<std::collections::BTreeSet<u32>>().into_iter().collect();
+    let ib: Vec<u32> = (0..nb).map(|i| 2 + (i * 5 + (seed % 5) as u32) % (NT_BIG - 1)).collect::<std::collections::BTreeSet<u32>>().into_iter().collect();
+    let sim = HashSim(seed);
+    FLAT_BIG.with(|o| {
+        let mk = |ids: &[u32]| {
+            let mut g = HpoGroup::new();
+            for t in ids {
+                g.insert(*t);
+            }
+            HpoSet::new(o, g)
+        };
+        let (sa, sb) = (mk(&ia), mk(&ib));
+        for (comb, name) in COMBS {
+            stats.eval(1);
+            let want = reference(comb, ia.len(), ib.len(), &|i, j| f64::from(sim.value(ia[i], ib[j])));
+            let r = guarded(|| {
+                let g = GroupSimilarity::new(comb, sim.clone()).calculate(&sa, &sb);
+                let s = sa.similarity(&sb, sim.clone(), comb);
+                let c = GroupSimilarity::new(comb, CachedSimilarity::new(sim.clone())).calculate(&sa, &sb);
+                (g, s, c)
+            });
+            let (g, s2, c) = match r {
+                Ok(v) => v,
+                Err(p) => return fail(format!("group/{name}/panic"), format!("set similarity of {} x {} terms panicked: {p}", ia.len(), ib.len())),
+            };
+            ensure!(close_f32(g, want, 1e-4), format!("group/{name}/big-sets"), "GroupSimilarity({name}) of {} x {} terms = {g}, combination of the pair matrix gives {want}", ia.len(), ib.len());
+            ensure!(s2.to_bits() == g.to_bits() && c.to_bits() == g.to_bits(), format!("group/{name}/big-sets"), "{} x {} terms: HpoSet::similarity {s2}, cached {c}, GroupSimilarity {g}", ia.len(), ib.len());
+        }
+        Ok(())
+    })?;
+    if ia.len().max(ib.len()) > 128 {
+        stats.label("sets:more-than-128-members");
+    }
+    if ia.len().max(ib.len()) > 255 {
+        stats.label("sets:more-than-255-members");
+    }
+    Ok(())
+}
+
 impl Property for C05 {
     fn id(&self) -> &'static str {
         "C05"
@@ -369,12 +444,31 @@ impl Property for C05 {
         }
     }
     fn required_labels(&self, _tier: Tier) -> Vec<&'static str> {
-        vec!["nontrivial", "matrix:rect-row!=col-means", "matrix:empty", "matrix:1x40", "int-matrix", "sets:unequal-sizes", "sets:empty", "sets:more-than-30-members", "sets:symmetric-table", "sets:asymmetric-table", "sets:cache-reused-over-several-pairs", "sets:same-object-asymmetric-table", "magnitude:huge", "magnitude:tiny"]
+        vec!["nontrivial", "matrix:rect-row!=col-means", "matrix:empty", "matrix:1x40", "int-matrix", "sets:unequal-sizes", "sets:empty", "sets:more-than-30-members", "sets:symmetric-table", "sets:asymmetric-table", "sets:cache-reused-over-several-pairs", "sets:same-object-asymmetric-table", "magnitude:huge", "magnitude:tiny", "sets:more-than-128-members", "sets:more-than-255-members"]
     }
     fn run_generated(&self, _tier: Tier, seed: u64, n: u64, stats: &mut Stats) -> Option<(Value, Failure)> {
         run_typed(strategy(), seed, n, stats, check)
     }
     fn replay(&self, case: &Value, stats: &mut Stats) -> Result<CheckResult, String> {
+        if let Some(b) = case.get("big_sets") {
+            let v: (u32, u32, u64) = serde_json::from_value(b.clone()).map_err(|e| e.to_string())?;
+            stats.cases += 1;
+            return Ok(check_big_sets(v.0, v.1, v.2, stats));
+        }
         replay_typed::<Case, _>(case, stats, check)
+    }
+    fn extra(&self, tier: Tier, seed: u64, stats: &mut Stats) -> Vec<(Value, Failure)> {
+        let mut sizes = vec![(129u32, 4u32), (128, 128), (4, 130), (200, 150), (257, 1), (300, 256), (64, 65)];
+        if tier == Tier::Thorough {
+            sizes.extend([(699, 513), (1, 699), (255, 255), (512, 129)]);
+        }
+        let mut out = Vec::new();
+        for (a, b) in sizes {
+            stats.cases += 1;
+            if let Err(f) = check_big_sets(a, b, seed, stats) {
+                out.push((json!({"big_sets": (a, b, seed)}), f));
+            }
+        }
+        out
     }
 }
